@@ -233,6 +233,23 @@ def discharge(ctx, site):
                 first = (b.get("path") or ((None, None, None),))[-1]
                 if seen_enum and (0 in first or "0" in [str(x) for x in first]):
                     return ("G5", "%s is the index of `.enumerate()` (below the length of an in-memory sequence, at most isize::MAX): %s + %d cannot overflow" % (lo[0], lo[0], k))
+            elif b and b["kind"] == "let" and b.get("path") and tuple(b["path"][-1]) == ("tuple", 0) and (b.get("init") or {}).get("k") == "Call" \
+                    and ((b["init"].get("callee") or "").endswith("Iterator::next")) and b["init"].get("args"):
+                # the same index bound by a `for (i, x) in X.enumerate()` loop (desugared: match next(&mut iter) { Some((i, x)) => .. })
+                it = local_of(strip_transparent(b["init"]["args"][0]))
+                ib = idx.binding.get(it[1]) if it else None
+                chain = None
+                if ib and (ib.get("init") or {}).get("k") == "Call" and (ib["init"].get("callee") or "").endswith("IntoIterator::into_iter") and ib["init"].get("args"):
+                    chain = ib["init"]["args"][0]
+                seen_enum = False
+                outermost = True
+                while chain is not None and strip_transparent(chain).get("k") == "MethodCall":
+                    if strip_transparent(chain)["method"] == "enumerate" and outermost:
+                        seen_enum = True
+                    outermost = False
+                    chain = strip_transparent(chain)["recv"]
+                if seen_enum:
+                    return ("G5", "%s is the index of a `for` loop over `.enumerate()` (below the length of an in-memory sequence, at most isize::MAX): %s + %d cannot overflow" % (lo[0], lo[0], k))
     if site["kind"] == "call" and n.get("k") == "MethodCall":
         m = n["method"]
         place = _place_str(n["recv"])
